@@ -457,6 +457,8 @@ type obs struct {
 	fwdErr   string
 	revN     int
 	revErr   string
+	gen2Ran  bool
+	gen2     string // second generation (the node goes on after this recovery): what went wrong, "" = nothing
 }
 
 func topOxiaFrame() string {
@@ -615,7 +617,86 @@ func (b *base) observe(root string, im *image, nilProv bool, commit int64) *obs 
 	if p2 := callSafe("close", func() { _ = w.Close() }); p2 != nil && o.pan == nil {
 		o.pan = p2
 	}
+	if o.pan == nil && o.mismatch == "" && b.h.Codec != "v1" && o.last+1 < int64(b.n) && (o.last < 0 || o.first == 0) {
+		b.secondGeneration(root, p, o)
+	}
 	return o
+}
+
+// secondGeneration: the recovery left out entries that had been appended (a torn or damaged uncommitted tail).
+// The node goes on: it appends the next entry (as long as the one that stood at that offset, other content),
+// syncs, closes, and starts again with the index file of the current segment not yet on disk (the state after a
+// crash following the sync). The log must then end at the new entry: whatever lay behind the left-out record
+// must not come back as entries nobody appended after it. v2 only (v1 records carry no checksum at all: the
+// known v1 findings cover taking bytes after the tail at face value).
+func (b *base) secondGeneration(root string, p wal.CommitOffsetProvider, o *obs) {
+	o.gen2Ran = true
+	next := o.last + 1
+	old := b.entries[next]
+	ne := &proto.LogEntry{Term: old.Term + 1, Offset: next, Value: bytes.Repeat([]byte{0xEE}, len(old.Value)), Timestamp: old.Timestamp}
+	var w wal.Wal
+	var err error
+	pan := callSafe("second-generation", func() {
+		if w, err = openWal(root, b.segSize, p); err != nil {
+			o.gen2 = "open before the next append failed: " + err.Error()
+			return
+		}
+		if err = w.Append(ne); err != nil {
+			o.gen2 = fmt.Sprintf("append of offset %d after the recovery failed: %v", next, err)
+			_ = w.Close()
+			return
+		}
+		_ = w.Close()
+		// the index of the segment that was being written is only written at close / roll-over
+		names, _ := os.ReadDir(walDir(root))
+		var maxBase int64 = -1
+		for _, de := range names {
+			var base int64
+			if _, e := fmt.Sscanf(de.Name(), "%d.", &base); e == nil && base > maxBase {
+				maxBase = base
+			}
+		}
+		for _, de := range names {
+			if strings.HasPrefix(de.Name(), fmt.Sprintf("%d.idx", maxBase)) {
+				_ = os.Remove(filepath.Join(walDir(root), de.Name()))
+			}
+		}
+		if w, err = openWal(root, b.segSize, p); err != nil {
+			o.gen2 = fmt.Sprintf("open after the append of offset %d failed: %v", next, err)
+			return
+		}
+		defer func() { _ = w.Close() }()
+		if l := w.LastOffset(); l != next {
+			o.gen2 = fmt.Sprintf("recovered last=%d, offset %d (term %d) appended and synced, restart: last=%d", o.last, next, ne.Term, l)
+			if l > next {
+				if r, e := w.NewReader(next); e == nil && r.HasNext() {
+					if e2, e := r.ReadNext(); e == nil {
+						o.gen2 += "; offset " + fmt.Sprint(next+1) + " reads " + renderEntry(e2) + ", which nobody appended after the new entry"
+					}
+					_ = r.Close()
+				}
+			}
+			return
+		}
+		r, e := w.NewReader(next - 1)
+		if e != nil {
+			o.gen2 = "NewReader after restart: " + e.Error()
+			return
+		}
+		defer func() { _ = r.Close() }()
+		if !r.HasNext() {
+			o.gen2 = fmt.Sprintf("offset %d appended and synced, not readable after restart", next)
+			return
+		}
+		if got, e := r.ReadNext(); e != nil {
+			o.gen2 = fmt.Sprintf("offset %d appended and synced, read after restart: %v", next, e)
+		} else if !sameEntry(got, ne) {
+			o.gen2 = fmt.Sprintf("offset %d appended %s, read after restart %s", next, renderEntry(ne), renderEntry(got))
+		}
+	})
+	if pan != nil {
+		o.gen2 = fmt.Sprintf("panic in %s (%s): %s", pan.phase, pan.fn, pan.msg)
+	}
 }
 
 var reNum = regexp.MustCompile(`[0-9]+`)
@@ -688,6 +769,13 @@ func (o *obs) summary() string {
 // outcome class used for the evidence counters.
 func (b *base) judge(im *image, nilProv bool, commit int64, o *obs) (key, msg, outcome string) {
 	key, msg, outcome = b.judge0(im, nilProv, commit, o)
+	if key == "" && o.gen2 != "" {
+		k := "second-generation:new-entry-not-kept:"
+		if strings.Contains(o.gen2, "which nobody appended") {
+			k = "second-generation:stale-entries-behind-the-new-tail:"
+		}
+		return k + b.h.Codec, o.gen2 + "; first generation: " + o.summary(), "stale-tail"
+	}
 	// v1 records and index files carry no checksum: every way in which damaged v1 bytes are taken at face
 	// value in the *current* segment is one root cause per damaged structure (format limitation)
 	if b.h.Codec == "v1" && im.kind == "corrupt" && key != "" && !strings.HasPrefix(key, "panic:") && !strings.HasPrefix(key, "hang:") &&
@@ -1042,6 +1130,9 @@ func (en *engine) emit(im *image) {
 		en.res.Evaluations++
 		key, msg, outcome := en.b.judge(im, p.nilp, p.c, o)
 		en.res.Counters["outcome_"+outcome]++
+		if o.gen2Ran {
+			en.res.Counters["second_generation_append_and_restart"]++
+		}
 		if en.job.Verbose {
 			fmt.Fprintf(os.Stderr, "%s | %s | commit=%s | %s | key=%q\n", en.b.h.ID(), im.desc, p, o.summary(), key)
 		}
